@@ -1,19 +1,90 @@
-(** Basic facts about the reference lexer ([Model/Lexer.v]). *)
+(** Facts about the reference lexer ([Model/Lexer.v]) used by the no-fusion proof. *)
 From DL Require Import Lib.Bytes Model.Lexer.
 Open Scope N_scope.
 
 (** the lexer is a fold: running over a concatenation is running over the parts in turn *)
-Lemma run_app : forall x y st,
-  run st (x ++ y) =
-  let '(o1, s1) := run st x in
-  let '(o2, s2) := run s1 y in
-  (o1 ++ o2, s2).
+Lemma run_app : forall x y k,
+  run k (x ++ y) =
+  let '(o1, k1) := run k x in
+  let '(o2, k2) := run k1 y in
+  (o1 ++ o2, k2).
 Proof.
-  induction x as [|c x IH]; intros y st; cbn [run app].
-  - destruct (run st y) as [o2 s2]. reflexivity.
-  - destruct (step st c) as [o st'].
+  induction x as [|c x IH]; intros y k; cbn [run app].
+  - destruct (run k y) as [o2 k2]. reflexivity.
+  - destruct (step k c) as [o k'].
     rewrite IH.
-    destruct (run st' x) as [o1 s1].
-    destruct (run s1 y) as [o2 s2].
+    destruct (run k' x) as [o1 k1].
+    destruct (run k1 y) as [o2 k2].
     rewrite app_assoc. reflexivity.
+Qed.
+
+Lemma run_app_eq : forall x y z k,
+  run k x = run k y -> run k (x ++ z) = run k (y ++ z).
+Proof. intros x y z k H. rewrite !run_app, H. reflexivity. Qed.
+
+Lemma run_one : forall k c, run k [c] = step k c.
+Proof.
+  intros k c. cbn [run]. destruct (step k c) as [o k']. rewrite app_nil_r. reflexivity.
+Qed.
+
+Definition ws (c : N) : Prop := c = 32 \/ c = 10.
+
+Lemma is_ws_ws c : ws c -> is_ws c = true.
+Proof. intros [->| ->]; reflexivity. Qed.
+
+(** white space at a token boundary does nothing *)
+Lemma step_start_ws stk c : ws c -> step (stk, LStart) c = ([], (stk, LStart)).
+Proof. intros H. cbn [step]. unfold start. rewrite (is_ws_ws c H). reflexivity. Qed.
+
+(** white space ends the pending token of a clean state *)
+Lemma step_clean_ws stk st c :
+  clean st = true -> ws c -> step (stk, st) c = (flush st, (stk, LStart)).
+Proof.
+  intros Hc Hw.
+  destruct st as [|racc|ph racc|p|n|q esc racc|n cl racc|esc racc|racc|n racc|racc|n cl racc|];
+    try discriminate Hc.
+  - rewrite step_start_ws by assumption. reflexivity.
+  - destruct Hw as [->| ->]; reflexivity.
+  - destruct Hw as [->| ->]; destruct ph; reflexivity.
+  - destruct Hw as [->| ->]; destruct p; try discriminate Hc; reflexivity.
+Qed.
+
+(** a byte that cannot extend the pending token: the token is emitted and the byte starts
+    what follows *)
+Lemma step_no_extend stk st c :
+  clean st = true -> st <> LStart -> extends st c = false ->
+  step (stk, st) c = (flush st ++ fst (step (stk, LStart) c), snd (step (stk, LStart) c)).
+Proof.
+  intros Hc Hs He.
+  destruct st as [|racc|ph racc|p|n|q esc racc|n cl racc|esc racc|racc|n racc|racc|n cl racc|];
+    try discriminate Hc; try congruence.
+  - cbn [step step_st]. cbn [extends step_st] in He.
+    destruct (is_ident_char c); [discriminate He|].
+    unfold restart. cbn [step]. destruct (start stk c) as [o k]. reflexivity.
+  - cbn [step step_st]. cbn [extends step_st] in He.
+    destruct (num_next ph c); [discriminate He|].
+    unfold restart. cbn [step]. destruct (start stk c) as [o k]. reflexivity.
+  - cbn [step step_st]. cbn [extends step_st] in He.
+    destruct (sym_next p c); [discriminate He|].
+    unfold restart. cbn [step]. destruct (start stk c) as [o k]. reflexivity.
+Qed.
+
+(** feeding a space to a state that is not clean leaves it not clean *)
+Lemma unclean_space stk st :
+  clean st = false -> clean (snd (snd (step (stk, st) 32))) = false.
+Proof.
+  intros Hc.
+  destruct st as [|racc|ph racc|p|n|q esc racc|n cl racc|esc racc|racc|n racc|racc|n cl racc|];
+    try discriminate Hc.
+  - destruct p; try discriminate Hc. reflexivity.
+  - reflexivity.
+  - cbn [step step_st]. destruct esc; [reflexivity|].
+    destruct q; reflexivity.
+  - cbn [step step_st close_next]. reflexivity.
+  - destruct esc; reflexivity.
+  - reflexivity.
+  - reflexivity.
+  - reflexivity.
+  - cbn [step step_st close_next]. reflexivity.
+  - reflexivity.
 Qed.
